@@ -35,8 +35,12 @@ impl TableBuilder for Program {
         if let Some(entry) = table.lookup("main").as_ref() {
             if let GlobalEntry::Procedure(main) = &entry {
                 if !main.parameters.is_empty() {
+                    // The name range is relative to the declaration of `main`,
+                    // whereas the errors of the program are absolute.
+                    // The identifier is the last token of its range.
+                    let name_end = main.name.to_range().end;
                     self.info.append_error(SplError(
-                        main.name.to_range(),
+                        (name_end - 1..name_end).shift(main.range.start),
                         BuildErrorMessage::MainMustNotHaveParameters.into(),
                     ));
                 }
